@@ -28,7 +28,12 @@ class AccessMixin(object):
     if isinstance(v, VClass):
       return [(st, self.class_attr(st, v.cls, name))]
     if isinstance(v, VEnum):
+      if name not in ('name', 'value') and name not in v.enum.methods:
+        self.safety(st, z3.BoolVal(False), 'attr', "'%s' object has no attribute '%s'" % (v.enum.name, name), node)
+        return []
       return [(st, self.enum_attr(st, v, name))]
+    if isinstance(v, VTypeSym) and name in ('__name__', '__qualname__'):
+      return [(st, VStr(z3.Function('type_name', z3.IntSort(), z3.StringSort())(v.t)))]
     if isinstance(v, VSuper):
       m = v.cls.find_method(name, after=v.cls) if isinstance(v.cls, ClassInfo) else None
       if m is not None:
@@ -174,6 +179,9 @@ class AccessMixin(object):
     owner, expr = cls.find_class_attr(name)
     if expr is not None:
       return [(st, self.eval_module_const(st, owner.module, expr))]
+    for c in cls.mro():
+      if name in c.nested:
+        return [(st, VClass(c.nested[name]))]
     if name == '__class__':
       return [(st, VClass(cls))]
     if name in LOGGER_NAMES:
@@ -182,8 +190,8 @@ class AccessMixin(object):
     if ga is not None:
       return self.call_function(st, ga, [v, VStr(name)], {})
     oid = self.oid_of(v)
-    if oid is not None and oid >= 1000000:
-      # object allocated in this activation: attribute really missing
+    if (oid is not None and oid >= 1000000) or any(c.name in self.ctx.registry.closed_classes for c in cls.mro()):
+      # object allocated in this activation, or class with a closed shape: the attribute really is missing
       self.safety(st, z3.BoolVal(False), 'attr', "'%s' object has no attribute '%s'" % (cls.name, name), node)
       return []
     raise Unsupported('attribute %s of %s: declare its shape' % (name, cls.name))
